@@ -173,7 +173,19 @@ def run_case(i, rng, rec, tier, state):
     except Exception as e:
         rec.violation(which + ".is_inside", f"{which}.is_inside/raises-{type(e).__name__}", dict(info, exc=repr(e)[:300]))
         return
-    idx = rng.choice(len(pts), size=min(5, len(pts)), replace=False)
+    # batch-vs-single only for points clear of the boundary band (the statement excludes the band)
+    if which == "Polygon":
+        _, band = geom.point_in_polygon(xy, pq)
+        bsize = gen.diameter(Vs)
+    else:
+        dd = pts - cen
+        qq = np.sqrt((dd[:, 0] / a2[0]) ** 2 + (dd[:, 1] / a2[1]) ** 2)
+        band = np.where(dd[:, 2] == 0, np.abs(qq - 1) * min(a2), np.where(np.abs(dd[:, 2]) > 1e-3 * max(a2), np.inf, 0.0))
+        bsize = max(a2)
+    clear = np.nonzero(band > MARGIN * bsize)[0]
+    if len(clear) == 0:
+        return
+    idx = rng.choice(clear, size=min(5, len(clear)), replace=False)
     for t, j in enumerate(idx):
         form = ["(3,)", "(1,3)", "list"][t % 3]
         p = arg[j]
